@@ -152,8 +152,11 @@ AcceptScript(shell, chars, items, groups, nfiles) ==
                  THEN [ok |-> TRUE, why |-> ""] ELSE [ok |-> FALSE, why |-> "candidates"]
 
 \* fish / elvish: lines = Seq(Seq(field : Seq(char))) as split at newlines and tabs by the harness
-AcceptLines(lines, items) ==
+\* fish reads every line as a candidate: a line whose first field is empty (a placeholder for a metavariable) is a
+\* bogus candidate there (`strict`); elvish output is filtered by bpaf's own elvish script
+AcceptLines(lines, items, strict) ==
   IF \E i \in DOMAIN lines : Len(lines[i]) > 2 \/ Len(lines[i]) = 0 THEN [ok |-> FALSE, why |-> "fields"]
+  ELSE IF strict /\ \E i \in DOMAIN lines : lines[i][1] = <<>> THEN [ok |-> FALSE, why |-> "empty_candidate"]
   ELSE IF SeqToBag(NonEmpty([i \in DOMAIN lines |-> lines[i][1]])) # SeqToBag(NonEmpty([i \in DOMAIN items |-> items[i].subst]))
        THEN [ok |-> FALSE, why |-> "candidates"]
   ELSE [ok |-> TRUE, why |-> ""]
